@@ -66,9 +66,10 @@ type FileCase struct {
 	Lost                       uint8
 	RF, PE                     Blob
 	Recs                       []Rec
-	Many                       int    `json:"many,omitempty"`  // that many further records with a one-octet payload (a file with thousands of records)
-	Prev                       string `json:"prev,omitempty"`  // what happened to the file name before: "" nothing | longer | shorter (a file of that size is stored under it) | fail (an Encoding into a missing directory was attempted just before)
-	Alias                      bool   `json:"alias,omitempty"` // routeing filter and private extension are windows on one array (the filter has spare capacity that reaches into the extension)
+	Many                       int    `json:"many,omitempty"`    // that many further records with a one-octet payload (a file with thousands of records)
+	Prev                       string `json:"prev,omitempty"`    // what happened to the file name before: "" nothing | longer | shorter (a file of that size is stored under it) | fail (an Encoding into a missing directory was attempted just before)
+	ManyLen                    int    `json:"manyLen,omitempty"` // payload length of those further records (0: one octet; -1: all different - record i has (i mod 600)+1 octets and a version / TS number that changes every 600 records, so that thousands of record headers are pairwise different - followed by one last record with the header of the first)
+	Alias                      bool   `json:"alias,omitempty"`   // routeing filter and private extension are windows on one array (the filter has spare capacity that reaches into the extension)
 }
 
 func genBlob(t *rapid.T, name string, allowHuge bool) Blob {
@@ -160,7 +161,17 @@ func (c FileCase) recs() []Rec {
 	}
 	out := append([]Rec{}, c.Recs...)
 	for i := 0; i < c.Many; i++ {
-		out = append(out, Rec{Rel: uint8(i % 7), Ver: uint8(i % 32), Fmt: uint8(1 + i%4), TsN: uint8(i % 32), Payload: Blob{N: 1, Seed: uint64(i + 1)}})
+		switch {
+		case c.ManyLen < 0:
+			out = append(out, Rec{Rel: 3, Ver: uint8((i / 600) % 32), Fmt: 1, TsN: uint8(i / (600 * 32)), Payload: Blob{N: i%600 + 1, Seed: uint64(i + 1)}})
+		case c.ManyLen > 0:
+			out = append(out, Rec{Rel: uint8(i % 7), Ver: uint8(i % 32), Fmt: uint8(1 + i%4), TsN: uint8(i % 32), Payload: Blob{N: c.ManyLen - i%3, Seed: uint64(i + 1)}})
+		default:
+			out = append(out, Rec{Rel: uint8(i % 7), Ver: uint8(i % 32), Fmt: uint8(1 + i%4), TsN: uint8(i % 32), Payload: Blob{N: 1, Seed: uint64(i + 1)}})
+		}
+	}
+	if c.ManyLen < 0 && c.Many > 0 {
+		out = append(out, Rec{Rel: 3, Ver: 0, Fmt: 1, TsN: 0, Payload: Blob{N: 1, Seed: 99}})
 	}
 	return out
 }
@@ -264,6 +275,20 @@ func (c FileCase) classify(v *h.Verdict) {
 	if c.Many > 4096 {
 		v.NT("records>4096")
 	}
+	if c.Many > 65536 {
+		v.NT("records>65536")
+	}
+	if c.ManyLen < 0 && c.Many > 4096 {
+		v.NT("distinct-record-headers>4096-then-the-first-again")
+	}
+	if c.ManyLen > 0 {
+		switch sz := c.Many * (c.ManyLen + 4); {
+		case sz >= 8<<20:
+			v.NT("file>=8MiB")
+		case sz >= 4<<20:
+			v.NT("file>=4MiB")
+		}
+	}
 	if c.Prev != "" {
 		v.Label("name-used-before:" + c.Prev)
 	}
@@ -299,7 +324,7 @@ func (c FileCase) before(name string) {
 	switch c.Prev {
 	case "longer":
 		l := c
-		l.Alias, l.Prev, l.Many = false, "", 0
+		l.Alias, l.Prev, l.Many, l.ManyLen = false, "", 0, 0
 		l.Recs = append(append([]Rec{}, c.Recs...), Rec{Rel: 3, Fmt: 1, Payload: Blob{N: 5000, Seed: 77}}, Rec{Rel: 7, Ext: 9, Fmt: 2, Payload: Blob{N: 100, Seed: 78}})
 		f := l.build()
 		h.Safely(func() { f.Encoding(name) })
@@ -310,7 +335,7 @@ func (c FileCase) before(name string) {
 		_ = os.WriteFile(name, []byte{1, 2, 3, 4, 5, 6, 7, 8, 9, 10}, 0o600)
 	case "fail":
 		l := c
-		l.Alias, l.Prev, l.Many = false, "", 0
+		l.Alias, l.Prev, l.Many, l.ManyLen = false, "", 0, 0
 		f := l.build()
 		h.Safely(func() { f.Encoding(filepath.Join(h.WorkDir(), "no-such-directory", "x.bin")) })
 	}
@@ -556,3 +581,26 @@ func TestSelfReader(t *testing.T) {
 		t.Fatalf("self-test: %s %s", v.Sig, v.Msg)
 	}
 }
+
+// Volume: files beyond the sizes the generator draws - more than 65536 records, more than 4096 pairwise different
+// record headers followed by the first one again, 4 to 12 MiB of records - the rest of the case drawn as usual.
+func genVolumeFiles(t *rapid.T) []FileCase {
+	var out []FileCase
+	add := func(many, manyLen int) {
+		c := genFile(t)
+		if len(c.Recs) > 2 {
+			c.Recs = c.Recs[:2]
+		}
+		c.Many, c.ManyLen, c.Prev = many, manyLen, ""
+		out = append(out, c)
+	}
+	add(rapid.SampledFrom([]int{65535, 65536, 65537, 70000}).Draw(t, "records"), 0)
+	add(rapid.SampledFrom([]int{4096, 4097, 5000, 9000, 20000}).Draw(t, "distinct"), -1)
+	add(rapid.IntRange(70, 100).Draw(t, "mid"), rapid.IntRange(58000, 65535).Draw(t, "midLen"))       // 4 - 6.5 MiB
+	add(rapid.IntRange(140, 200).Draw(t, "big"), rapid.IntRange(60000, 65535).Draw(t, "bigLen"))      // 8 - 13 MiB
+	add(rapid.IntRange(9000, 12000).Draw(t, "smallMany"), rapid.IntRange(900, 1000).Draw(t, "smLen")) // 8 - 12 MiB of small records
+	return out
+}
+
+func TestC14Volume(t *testing.T) { h.Run(t, "C14", "volume", genVolumeFiles, judgeAll(judgeC14)) }
+func TestC15Volume(t *testing.T) { h.Run(t, "C15", "volume", genVolumeFiles, judgeAll(judgeC15)) }
